@@ -49,7 +49,7 @@ macro "tr_shyps" : tactic => `(tactic| (
 
 
 /-- every generated predicate (second chance: open the callee's predicate instead of citing its theorem) -/
-macro "tr_sunfold" : tactic => `(tactic| simp only [Tr.date2julian_safe, Tr.julian2date_safe, Tr.is_leap_year_safe, Tr.is_valid_date_safe, Tr.is_valid_timestamp_safe, Tr.is_valid_time_safe, Tr.days_of_month_safe, Tr.the_day_of_year_safe, Tr.Timestamp.new_safe, Tr.Timestamp.extract_safe, Tr.Timestamp.date_safe, Tr.Timestamp.time_safe, Tr.Timestamp.try_from_usecs_safe, Tr.Timestamp.add_interval_dt_safe, Tr.Timestamp.sub_interval_dt_safe, Tr.Timestamp.add_time_safe, Tr.Timestamp.sub_time_safe, Tr.Timestamp.sub_timestamp_safe, Tr.Timestamp.sub_date_safe, Tr.Timestamp.add_interval_ym_safe, Tr.Timestamp.sub_interval_ym_safe, Tr.Timestamp.last_day_of_month_safe, Tr.Timestamp.trunc_day_safe, Tr.Timestamp.trunc_hour_safe, Tr.Timestamp.trunc_minute_safe, Tr.Time.from_hms_unchecked_safe, Tr.Time.try_from_hms_safe, Tr.Time.is_valid_safe, Tr.Time.validate_hms_safe, Tr.Time.try_from_usecs_safe, Tr.Time.extract_safe, Tr.Time.sub_time_safe, Tr.Time.add_interval_dt_safe, Tr.Time.sub_interval_dt_safe, Tr.Time.from_interval_dt_safe, Tr.IntervalYM.from_ym_unchecked_safe, Tr.IntervalYM.try_from_ym_safe, Tr.IntervalYM.is_valid_ym_safe, Tr.IntervalYM.is_valid_months_safe, Tr.IntervalYM.try_from_months_safe, Tr.IntervalYM.extract_safe, Tr.IntervalYM.negate_safe, Tr.IntervalYM.add_interval_ym_safe, Tr.IntervalYM.sub_interval_ym_safe, Tr.IntervalYM.cmp_safe, Tr.IntervalDT.from_dhms_unchecked_safe, Tr.IntervalDT.try_from_dhms_safe, Tr.IntervalDT.is_valid_safe, Tr.IntervalDT.is_valid_usecs_safe, Tr.IntervalDT.try_from_usecs_safe, Tr.IntervalDT.extract_safe, Tr.IntervalDT.negate_safe, Tr.IntervalDT.add_interval_dt_safe, Tr.IntervalDT.sub_interval_dt_safe, Tr.IntervalDT.sub_time_safe, Tr.IntervalYM.mul_f64_safe, Tr.IntervalYM.div_f64_safe, Tr.IntervalDT.mul_f64_safe, Tr.IntervalDT.div_f64_safe, Tr.IntervalDT.second_safe, Tr.Time.mul_f64_safe, Tr.Time.div_f64_safe, Tr.Time.second_safe, Tr.Timestamp.add_days_safe, Tr.Timestamp.sub_days_safe, Tr.Timestamp.second_safe, Tr.OracleDate.add_days_safe, Tr.OracleDate.sub_days_safe, Tr.OracleDate.sub_date_safe, Tr.Timestamp.oracle_add_days_safe, Tr.Timestamp.oracle_sub_days_safe, Tr.NDT.new_safe, Tr.NDT.hour12_safe, Tr.NDT.adjust_hour12_safe, Tr.NDT.of_date_safe, Tr.NDT.of_time_safe, Tr.NDT.of_timestamp_safe, Tr.NDT.of_interval_ym_safe, Tr.NDT.of_interval_dt_safe, Tr.NDT.of_oracle_date_safe, Tr.Date.try_from_ndt_ref_safe, Tr.Date.try_from_ndt_safe, Tr.Time.try_from_ndt_ref_safe, Tr.Time.try_from_ndt_safe, Tr.Timestamp.try_from_ndt_safe, Tr.IntervalYM.try_from_ndt_safe, Tr.IntervalDT.try_from_ndt_safe, Tr.OracleDate.try_from_ndt_safe, Tr.Date.from_ymd_unchecked_safe, Tr.Date.try_from_ymd_safe, Tr.Date.is_valid_safe, Tr.Date.validate_ymd_safe, Tr.Date.try_from_days_safe, Tr.Date.extract_safe, Tr.Date.and_zero_time_safe, Tr.Date.and_time_safe, Tr.Date.and_hms_safe, Tr.Date.add_days_safe, Tr.Date.sub_days_safe, Tr.Date.sub_date_safe, Tr.Date.day_of_week_safe, Tr.Date.add_interval_ym_internal_safe, Tr.Date.last_day_of_month_safe, Tr.Date.partial_cmp_timestamp_safe, Tr.Date.eq_timestamp_safe, Tr.OracleDate.new_safe, Tr.OracleDate.is_valid_date_safe, Tr.OracleDate.try_from_usecs_safe, Tr.OracleDate.from_timestamp_safe, Tr.OracleDate.add_interval_dt_safe, Tr.OracleDate.add_interval_ym_safe, Tr.OracleDate.sub_interval_dt_safe, Tr.OracleDate.sub_interval_ym_safe, Tr.sub_to_date_safe, Tr.current_date_safe, Tr.Date.trunc_year_safe, Tr.Date.trunc_week_safe, Tr.Date.trunc_day_safe, Tr.Date.trunc_hour_safe, Tr.Date.trunc_minute_safe, Tr.Date.trunc_sunday_start_week_safe, Tr.Date.round_century_safe, Tr.Date.round_year_safe, Tr.Date.round_day_safe, Tr.Date.round_hour_safe, Tr.Date.round_minute_safe] at *)
+macro "tr_sunfold" : tactic => `(tactic| simp only [Tr.date2julian_safe, Tr.julian2date_safe, Tr.is_leap_year_safe, Tr.is_valid_date_safe, Tr.is_valid_timestamp_safe, Tr.is_valid_time_safe, Tr.days_of_month_safe, Tr.the_day_of_year_safe, Tr.Timestamp.new_safe, Tr.Timestamp.extract_safe, Tr.Timestamp.date_safe, Tr.Timestamp.time_safe, Tr.Timestamp.try_from_usecs_safe, Tr.Timestamp.add_interval_dt_safe, Tr.Timestamp.sub_interval_dt_safe, Tr.Timestamp.add_time_safe, Tr.Timestamp.sub_time_safe, Tr.Timestamp.sub_timestamp_safe, Tr.Timestamp.sub_date_safe, Tr.Timestamp.add_interval_ym_safe, Tr.Timestamp.sub_interval_ym_safe, Tr.Timestamp.last_day_of_month_safe, Tr.Timestamp.trunc_day_safe, Tr.Timestamp.trunc_hour_safe, Tr.Timestamp.trunc_minute_safe, Tr.Time.from_hms_unchecked_safe, Tr.Time.try_from_hms_safe, Tr.Time.is_valid_safe, Tr.Time.validate_hms_safe, Tr.Time.try_from_usecs_safe, Tr.Time.extract_safe, Tr.Time.sub_time_safe, Tr.Time.add_interval_dt_safe, Tr.Time.sub_interval_dt_safe, Tr.Time.from_interval_dt_safe, Tr.IntervalYM.from_ym_unchecked_safe, Tr.IntervalYM.try_from_ym_safe, Tr.IntervalYM.is_valid_ym_safe, Tr.IntervalYM.is_valid_months_safe, Tr.IntervalYM.try_from_months_safe, Tr.IntervalYM.extract_safe, Tr.IntervalYM.negate_safe, Tr.IntervalYM.add_interval_ym_safe, Tr.IntervalYM.sub_interval_ym_safe, Tr.IntervalYM.cmp_safe, Tr.IntervalDT.from_dhms_unchecked_safe, Tr.IntervalDT.try_from_dhms_safe, Tr.IntervalDT.is_valid_safe, Tr.IntervalDT.is_valid_usecs_safe, Tr.IntervalDT.try_from_usecs_safe, Tr.IntervalDT.extract_safe, Tr.IntervalDT.negate_safe, Tr.IntervalDT.add_interval_dt_safe, Tr.IntervalDT.sub_interval_dt_safe, Tr.IntervalDT.sub_time_safe, Tr.IntervalYM.mul_f64_safe, Tr.IntervalYM.div_f64_safe, Tr.IntervalDT.mul_f64_safe, Tr.IntervalDT.div_f64_safe, Tr.IntervalDT.second_safe, Tr.Time.mul_f64_safe, Tr.Time.div_f64_safe, Tr.Time.second_safe, Tr.Timestamp.add_days_safe, Tr.Timestamp.sub_days_safe, Tr.Timestamp.second_safe, Tr.OracleDate.add_days_safe, Tr.OracleDate.sub_days_safe, Tr.OracleDate.sub_date_safe, Tr.Timestamp.oracle_add_days_safe, Tr.Timestamp.oracle_sub_days_safe, Tr.NDT.new_safe, Tr.NDT.hour12_safe, Tr.NDT.adjust_hour12_safe, Tr.NDT.of_date_safe, Tr.NDT.of_time_safe, Tr.NDT.of_timestamp_safe, Tr.NDT.of_interval_ym_safe, Tr.NDT.of_interval_dt_safe, Tr.NDT.of_oracle_date_safe, Tr.Date.try_from_ndt_ref_safe, Tr.Date.try_from_ndt_safe, Tr.Time.try_from_ndt_ref_safe, Tr.Time.try_from_ndt_safe, Tr.Timestamp.try_from_ndt_safe, Tr.IntervalYM.try_from_ndt_safe, Tr.IntervalDT.try_from_ndt_safe, Tr.OracleDate.try_from_ndt_safe, Tr.Date.from_ymd_unchecked_safe, Tr.Date.try_from_ymd_safe, Tr.Date.is_valid_safe, Tr.Date.validate_ymd_safe, Tr.Date.try_from_days_safe, Tr.Date.extract_safe, Tr.Date.and_zero_time_safe, Tr.Date.and_time_safe, Tr.Date.and_hms_safe, Tr.Date.add_days_safe, Tr.Date.sub_days_safe, Tr.Date.sub_date_safe, Tr.Date.day_of_week_safe, Tr.Date.add_interval_ym_internal_safe, Tr.Date.last_day_of_month_safe, Tr.Date.partial_cmp_timestamp_safe, Tr.Date.eq_timestamp_safe, Tr.OracleDate.new_safe, Tr.OracleDate.is_valid_date_safe, Tr.OracleDate.try_from_usecs_safe, Tr.OracleDate.from_timestamp_safe, Tr.OracleDate.add_interval_dt_safe, Tr.OracleDate.add_interval_ym_safe, Tr.OracleDate.sub_interval_dt_safe, Tr.OracleDate.sub_interval_ym_safe, Tr.sub_to_date_safe, Tr.current_date_safe, Tr.Date.round_week_internal_safe, Tr.Date.round_month_start_week_internal_safe, Tr.Date.trunc_century_safe, Tr.Date.trunc_year_safe, Tr.Date.trunc_quarter_safe, Tr.Date.trunc_month_safe, Tr.Date.trunc_week_safe, Tr.Date.trunc_iso_week_safe, Tr.Date.trunc_month_start_week_safe, Tr.Date.trunc_day_safe, Tr.Date.trunc_sunday_start_week_safe, Tr.Date.trunc_hour_safe, Tr.Date.trunc_minute_safe, Tr.Date.round_century_safe, Tr.Date.round_year_safe, Tr.Date.round_quarter_safe, Tr.Date.round_month_safe, Tr.Date.round_week_safe, Tr.Date.round_iso_week_safe, Tr.Date.round_month_start_week_safe, Tr.Date.round_day_safe, Tr.Date.round_sunday_start_week_safe, Tr.Date.round_hour_safe, Tr.Date.round_minute_safe] at *)
 
 macro "tr_sintro" : tactic => `(tactic| repeat' (first
   | exact True.intro
